@@ -83,7 +83,13 @@ class ManifestPathEntry:
             raise ManifestSyntaxError(
                 f'{data[0]} line: expected relative path, '
                 f'got: {data[1:]}')
-        return cls.escape_seq_re.sub(cls.decode_char, data[1])
+        path = cls.escape_seq_re.sub(cls.decode_char, data[1])
+        # the leading slash may have been hidden behind an escape
+        if path[0] == '/':
+            raise ManifestSyntaxError(
+                f'{data[0]} line: expected relative path, '
+                f'got: {data[1:]}')
+        return path
 
     @staticmethod
     def encode_char(m):
